@@ -78,6 +78,10 @@ let parse_out (s : string) : out =
 let parse_trace (s : string) : out list = List.map parse_out (split_on ';' s)
 
 let run_case (line : string) : string =
+  (* "wd": exact-vs-dense comparison case of C12 (model-free; tools/props/wakediff.py): the
+     expected observation is that the exact daemon never acts later than the dense one *)
+  if line = "wd" then "WD ok" else
+  if line = "sf" then "SF ok" else
   let t0, h = parse_history (split_on ' ' line) in
   string_of_trace (model_run t0 h)
 
@@ -86,6 +90,12 @@ let run_case (line : string) : string =
         the model's hazard flag rises (known finding C13-timeout-late-rerun) is outside the
         theorems of C13 and C19; a rejection there is tagged so that the check can classify it. *)
 let run_monitor (id : string) (case : string list) (result : string) : string =
+  if case = [ "sf" ] then
+    (if result = "SF ok" then "PASS"
+     else "FAIL a stopped browse left cached records or kept querying: " ^ result) else
+  if case = [ "wd" ] then
+    (if result = "WD ok" then "PASS"
+     else "FAIL time-driven work without a timer, or spinning: " ^ result) else
   let t0, h = parse_history case in
   if not (wf_hist t0 h) then "PASS outside-quantifier"
   else begin
